@@ -241,18 +241,10 @@ def fn_arg_sets(target, text, idx):
     return out
 
 
-def function_level(col, tier, targets):
-    """Bounded stand-in at function level: the executable contracts on the real functions."""
+def _fn_level_chunk(col, targets, texts):
     from harness import funcheck
-    from harness.common import strings_upto
 
-    n = 3 if tier == "quick" else 4
-    t0 = time.time()
     cnt = 0
-    texts = list(strings_upto(FN_ALPHABET, n if tier != "quick" else 2)) + [
-        a + b + c for a in "|>'\"" for b in ["\u00b2", "\u0661", "+", "-", "2", "\\"] for c in ["", "\u00b2", "x", "\n", "2", "U", "+"]]
-    if tier == "quick":
-        texts += ['"\\x4', '"\\U0011FFFF"', '"\\UFFFFFFFF"', "a: |\n x", "a: >2\n   x\n"]
     for target in targets:
         for text in texts:
             for idx in range(len(text) + 1):
@@ -266,9 +258,59 @@ def function_level(col, tier, targets):
                         shown = {k: (v if isinstance(v, (str, int, bool)) else type(v).__name__) for k, v in kwargs.items()}
                         col.fail(f"contract/{kind}[{clause}]", {"function": target, "text": text, "index": idx, "args": shown},
                                  msg, function=target, oid=f"{target}:{kind}[{clause}]")
+    return cnt
+
+
+def _fn_level_worker(job):
+    targets, texts, known = job
+    c = Collector("C07", known)
+    n = _fn_level_chunk(c, targets, texts)
+    # (distinct inputs are counted, not shipped: a hash per case keeps the message small)
+    return n, c.evaluations, {hash(k) for k in c.nontrivial}, c.failures
+
+
+def function_level(col, tier, targets):
+    """Bounded stand-in at function level: the executable contracts on the real functions."""
+    from harness import funcheck
+    from harness.common import strings_upto
+
+    n = 3  # (quick: texts up to length 2, thorough: up to length 3)
+    t0 = time.time()
+    cnt = 0
+    texts = list(strings_upto(FN_ALPHABET, n if tier != "quick" else 2)) + [
+        a + b + c for a in "|>'\"" for b in ["\u00b2", "\u0661", "+", "-", "2", "\\"] for c in ["", "\u00b2", "x", "\n", "2", "U", "+"]]
+    if tier == "quick":
+        texts += ['"\\x4', '"\\U0011FFFF"', '"\\UFFFFFFFF"', "a: |\n x", "a: >2\n   x\n"]
+    if tier == "quick":
+        cnt += _fn_level_chunk(col, targets, texts)
+    else:
+        # thorough: the same loop over 16 worker processes (each with its own collector; results merged)
+        import multiprocessing as mp
+
+        chunks = [texts[i::16] for i in range(16)]
+        with mp.get_context("fork").Pool(16) as pool:
+            for c, evals, nontriv, fails in pool.imap_unordered(_fn_level_worker, [(targets, ch, sorted(col.known_active)) for ch in chunks]):
+                cnt += c
+                col.evaluations += evals
+                col.nontrivial.update(nontriv)
+                for f in fails:
+                    col.fail(f["check"], f["case"], f["msg"], known=f["known"], function=f["function"], oid=f["oid"])
     col.add_bound("every function of parsers/options.py against its executable contract",
                   f"stream texts of length <= {2 if tier == 'quick' else n} over {FN_ALPHABET!r} (+ escapes/header seeds), every start index, "
                   "all boolean/indent arguments", cnt, time.time() - t0)
+
+
+def _yaml_worker(job):
+    n, part, parts, known = job
+    c = Collector("C07", known)
+    cnt = 0
+    for k, s in enumerate(strings_upto(ALPHABET, n)):
+        if k % parts != part:
+            continue
+        c.case(s, nontrivial=len(s) > 0)
+        check_yaml(c, s)
+        cnt += 1
+    return cnt, c.evaluations, {hash(k) for k in c.nontrivial}, c.failures
 
 
 def run(tier, seed, extra):
@@ -291,10 +333,21 @@ def run(tier, seed, extra):
     n = 4 if tier == "quick" else 5
     t0 = time.time()
     cnt = 0
-    for s in strings_upto(ALPHABET, n):
-        col.case(s, nontrivial=len(s) > 0)
-        check_yaml(col, s)
-        cnt += 1
+    if tier == "quick":
+        for s in strings_upto(ALPHABET, n):
+            col.case(s, nontrivial=len(s) > 0)
+            check_yaml(col, s)
+            cnt += 1
+    else:
+        import multiprocessing as mp
+
+        with mp.get_context("fork").Pool(16) as pool:
+            for c, evals, nontriv, fails in pool.imap_unordered(_yaml_worker, [(n, i, 16, sorted(col.known_active)) for i in range(16)]):
+                cnt += c
+                col.evaluations += evals
+                col.nontrivial.update(nontriv)
+                for f in fails:
+                    col.fail(f["check"], f["case"], f["msg"], known=f["known"], function=f["function"], oid=f["oid"])
     col.add_bound("options_to_items vs yaml.parse", f"all strings of length <= {n} over {ALPHABET!r}", cnt, time.time() - t0)
     t0 = time.time()
     m = 3000 if tier == "quick" else 40000
